@@ -12,6 +12,7 @@ import (
 	"time"
 
 	"github.com/ThreeDotsLabs/watermill/message"
+	"github.com/ThreeDotsLabs/watermill/verifhook"
 	"github.com/pkg/errors"
 )
 
@@ -162,6 +163,7 @@ func (kr *mapExpiringKeyRepository) IsDuplicate(
 	ctx context.Context,
 	key string,
 ) (bool, error) {
+	verifhook.At("dedup.isduplicate.enter", key, "")
 	kr.mu.Lock()
 	_, alreadySeen := kr.tags[key]
 	if alreadySeen {
